@@ -407,10 +407,10 @@ void Var::operator=(const char* x)
 	int n = (int)strlen(x);
 	if (_type == STRING) {
 		_s->resize(n + 1);
-		memcpy(_s->data(), x, n + 1);
+		memmove(_s->data(), x, n + 1); // x may point into this string
 	}
 	else if(_type==SSTRING && n < VAR_SSPACE)
-		memcpy(_ss, x, n + 1);
+		memmove(_ss, x, n + 1);
 	else
 	{
 		free();
